@@ -186,36 +186,52 @@ class _Hang(BaseException):
     pass
 
 
-def _on_alarm(signum, frame):
-    raise _Hang()
+class _Watch:
+    """a private watchdog of GUARD_S seconds around every implementation call; between calls the engine's own per-case
+    watchdog (if any) is re-armed with what is left of its time, so a slow case still ends as the engine's `timeout`"""
 
+    def __init__(self):
+        self.old = signal.getsignal(signal.SIGALRM)
+        self.left = signal.getitimer(signal.ITIMER_REAL)[0]
+        self.began = time.monotonic()
+        self.inside = False
+        signal.signal(signal.SIGALRM, self._fire)
 
-def _guarded(f):
-    """run f() under a private watchdog of GUARD_S seconds, then give the engine's watchdog back what is left of its time"""
-    old = signal.getsignal(signal.SIGALRM)
-    left = signal.getitimer(signal.ITIMER_REAL)[0]
-    began = time.monotonic()
-    signal.signal(signal.SIGALRM, _on_alarm)
-    signal.setitimer(signal.ITIMER_REAL, GUARD_S)
-    try:
-        return f()
-    finally:
-        signal.setitimer(signal.ITIMER_REAL, 0)
-        signal.signal(signal.SIGALRM, old if old is not None else signal.SIG_DFL)
-        if left > 0:
-            signal.setitimer(signal.ITIMER_REAL, max(0.05, left - (time.monotonic() - began)))
+    def _fire(self, signum, frame):
+        if self.inside:
+            self.inside = False
+            raise _Hang()
+        if callable(self.old):
+            return self.old(signum, frame)
+        raise _Hang()
 
+    def _rearm(self):
+        if self.left > 0:
+            signal.setitimer(signal.ITIMER_REAL, max(0.05, self.left - (time.monotonic() - self.began)))
+        else:
+            signal.setitimer(signal.ITIMER_REAL, 0)
 
-def _run(f, guard):
-    """-> ('ok', value) | ('ValueError', text) | ('hang', None) | (other exception name, text)"""
-    try:
-        return 'ok', (_guarded(f) if guard else f())
-    except _Hang:
-        return 'hang', None
-    except ValueError as e:
-        return 'ValueError', str(e)
-    except Exception as e:
-        return type(e).__name__, str(e)
+    def run(self, f):
+        """-> ('ok', value) | ('ValueError', text) | ('hang', None) | (other exception name, text)"""
+        self.inside = True
+        signal.setitimer(signal.ITIMER_REAL, GUARD_S)
+        try:
+            try:
+                return 'ok', f()
+            finally:
+                self.inside = False
+                self._rearm()
+        except _Hang:
+            return 'hang', None
+        except ValueError as e:
+            return 'ValueError', str(e)
+        except Exception as e:
+            return type(e).__name__, str(e)
+
+    def close(self):
+        self.inside = False
+        signal.signal(signal.SIGALRM, self.old if self.old is not None else signal.SIG_DFL)
+        self._rearm()
 
 
 def _fmt(x):
@@ -321,7 +337,7 @@ def sweep(out, rec, state, drange, cal, t0, d, group, ends, bumps):
                 if state['hangs'] >= 2:
                     out.cls('aborted-after-two-calls-without-return')
                     return
-                st, r = _run(f, guard=True)
+                st, r = state['watch'].run(f)
                 out.call()
                 if via == 'drange':
                     outcomes[b.name] = (st, r)
@@ -380,10 +396,18 @@ def sweep(out, rec, state, drange, cal, t0, d, group, ends, bumps):
 
 
 def check(case):
-    from pyg_base import drange, Calendar
     out = Out()
     rec = _Rec(out)
-    state = dict(hangs=0)
+    state = dict(hangs=0, watch=_Watch())
+    try:
+        _check(case, out, rec, state)
+    finally:
+        state['watch'].close()
+    return out
+
+
+def _check(case, out, rec, state):
+    from pyg_base import drange, Calendar
     day = datetime.date.fromisoformat(case['day'])
     h, mi, s, us = case['tod']
     t0 = datetime.datetime(day.year, day.month, day.day, h, mi, s, us)
@@ -397,7 +421,6 @@ def check(case):
         bumps = bumps_for(group, month_ok)
         ends = endpoints(group, M, t0, d)
         sweep(out, rec, state, drange, cal, t0, d, group, ends, bumps)
-    return out
 
 
 # ------------------------------------------------------------------------------------------------ suites
